@@ -36,8 +36,15 @@ def rule_status(R):
         s = peel(si["subject"])
         e = si["edges"]
         if True in e and False in e:
-            if s[0] == "bin" and s[1] in ("Ne", "Eq") and any(x[0] == "field" and x[2] == "generation" for x in walk(s)) \
-                    and any(is_call(x, "generation") for x in walk(s)):
+            def _gen_side(x):
+                x = peel(x)
+                r_, n_ = chain(x)
+                if n_[-1:] == ["generation"]:
+                    return "op" if r_ == ("param", "op") else "self"
+                if is_call(x, "generation"):
+                    return "self"
+                return None
+            if s[0] == "bin" and s[1] in ("Ne", "Eq") and {_gen_side(s[2]), _gen_side(s[3])} == {"op", "self"}:
                 ne = s[1] == "Ne"
                 return ("gen",), {"mismatch": e[True if ne else False], "match": e[False if ne else True]}
             # `op.kind == OpKind::X` constrains the kind like a match arm does
